@@ -99,6 +99,8 @@ PLAN = {
                   S("miri-hook-avx2-unsafe", tag="miri-hook", miri={"depth": 1, "shards": 16}),
                   S("miri-plain-unsafe", tag="miri-plain", miri={"depth": 1, "shards": 16}),
                   S("miri-plain-nosimd-unsafe", tag="miri-nosimd", miri={"depth": 1, "shards": 16}),
+                  S("miri-plain-serde-unsafe", tag="miri-serde", miri={"depth": 1, "shards": 16, "kinds": "serde"}),
+                  S("miri-plain-serde-strict-unsafe", tag="miri-serde-strict", miri={"depth": 1, "shards": 16, "kinds": "serde"}),
                   S("asan0-default", tag="asan0-c07s", check="C07", only="agg-backends-shapes", env={"ASAN_OPTIONS": "detect_leaks=0"}),
                   S("asan0-default", tag="asan0-c02", check="C02", only="body-fill", env={"ASAN_OPTIONS": "detect_leaks=0"}),
                   S("asan0-default", tag="asan0-c07", check="C07", only="agg-backends-lanes", env={"ASAN_OPTIONS": "detect_leaks=0"}),
